@@ -765,7 +765,7 @@ def run(ctx, replay=None, proofs_ok=True):
     else:
         cases = corpus() + well_formed_cases(ctx) + malformed_cases(ctx) + systematic_malformed(ctx) + written_cases(ctx) + quat_cases(ctx) + transform_cases(ctx)
     failures, stats = differential(ctx, cases, imports=IMPORTS, impl=impl, expr=expr, judge=judge, shrink=shrink,
-                                   nontrivial=nontrivial, per_file=120)
+                                   nontrivial=nontrivial, per_file=60)
     hist = {}
     for c in cases:
         if c["kind"] == "text":
